@@ -155,4 +155,32 @@ theorem interpEach_ok (f : β → Except Fault (List α)) (qs : List β) (vs : L
 
 end batch
 
+section witness
+variable {α β : Type}
+
+/-- **C05_witness**: the element a failing batch is rejected for is the *first* one, in logical order,
+    that a single call rejects — `rej` being any test that decides rejection (for the built-in
+    strategies: `rejected xs`, i.e. `is_in_range` fails; `oobWitness1`/`oobWitness2` of the model
+    compute exactly this element, and the driver prints it as the payload of `oob`). -/
+theorem C05_witness (f : β → Except Fault (List α)) (rej : β → Bool)
+    (hrej : ∀ q, rej q = false ↔ ∃ v, f q = .ok v) (qs : List β) (e : Fault)
+    (h : interpEach f qs = .error e) :
+    ∃ w, qs.find? rej = some w ∧ f w = .error e := by
+  obtain ⟨pre, q, post, hqs, hpre, hq⟩ := C05_batch_first_error f qs e h
+  refine ⟨q, ?_, hq⟩
+  subst hqs
+  have hp : ∀ p ∈ pre, rej p = false := fun p hp => (hrej p).mpr (hpre p hp)
+  have hq' : rej q = true := by
+    cases hr : rej q with
+    | true => rfl
+    | false =>
+      obtain ⟨v, hv⟩ := (hrej q).mp hr
+      rw [hv] at hq; cases hq
+  rw [List.find?_append]
+  have : pre.find? rej = none := List.find?_eq_none.mpr (fun p hp' => by simp [hp p hp'])
+  rw [this]
+  simp [List.find?_cons, hq']
+
+end witness
+
 end NdInterp
